@@ -35,4 +35,13 @@ def runIntFmt (inp : List String) (obs : List String) : Option Verdict := do
   let rej := if o.ub then rej ++ ["C14.model_undefined_step"] else rej
   pure { modelObs, rejects := rej, nontrivial := v != 0, tags }
 
+/-- IFULL <lo> <hi> => <evaluations> <mismatches> <first>: summary of the exhaustive C-side comparison of all
+2^32 values with an independent formatter (thorough tier) -/
+def runIntFull (inp : List String) (obs : List String) : Option Verdict := do
+  let [_, lo, hi] := inp | none
+  let [ev, bad, first] := obs | none
+  let lo ← lo.toNat?; let hi ← hi.toNat?; let ev ← ev.toNat?
+  pure { modelObs := s!"{(hi - lo) * 8} 0 -", rejects := if bad == "0" then [] else [s!"C14.exhaustive_mismatch.{first}"],
+         nontrivial := ev > 0, tags := ["exhaustive_2^32_slice"] }
+
 end ScpiVerif.Drv
